@@ -374,6 +374,44 @@ def gen_queue_case(rng: random.Random):
     return dict(n=n, types=types, grp=grp, edges=edges, until=until, beh=beh, init=init, maxloop=100)
 
 
+def gen_lazy_case(rng: random.Random):
+    """run-ahead stress for lazy stepping: producers that could run far ahead of their (slow) direct consumers; each
+    producer-consumer pair is joined by exactly one connection - plain, time-shifted or weak (inside a common group, with
+    no path back) - so that the successors entry of that single connection is what holds the producer back"""
+    np_, nc = rng.choice([1, 1, 2]), rng.choice([1, 1, 2])
+    n = np_ + nc
+    shape = rng.choice(['flat', 'one', 'one', 'nested', 'mixed'])
+    if shape == 'flat': grp = [[] for _ in range(n)]
+    elif shape == 'one': grp = [[0] for _ in range(n)]
+    elif shape == 'nested': grp = [[0] if i < np_ else [0, 0] for i in range(n)]
+    else: grp = [rng.choice([[0], [0, 0], [0, 1]]) for _ in range(n)]
+    types = [rng.choice(['time-based', 'hybrid', 'hybrid']) for _ in range(np_)] + [rng.choice(['time-based', 'hybrid', 'event-based']) for _ in range(nc)]
+    edges = []
+    for a in range(np_):
+        for b in rng.sample(range(np_, n), rng.randint(1, nc)):
+            common = common_prefix(grp[a], grp[b]) > 0
+            kind = rng.choice(['p', 'ts'] + (['w', 'w', 'w'] if common else []))
+            srcs = {'time-based': ['po'], 'hybrid': ['po', 'eo']}[types[a]]
+            dsts = {'time-based': ['i'], 'event-based': ['ti'], 'hybrid': ['i', 'ti']}[types[b]]
+            sa, da = rng.choice(srcs), rng.choice(dsts)
+            if sa == 'eo' and da == 'i': da = 'ti' if 'ti' in dsts else da
+            if sa == 'eo' and da == 'i': sa = 'po'
+            edges.append(dict(a=a, b=b, sa=sa, da=da, kind=kind, shift=rng.choice([1, 2]) if kind == 'ts' else 0,
+                              init=bool(kind != 'p' and da == 'i')))
+    until = rng.randint(4, 8)
+    beh = []
+    for i in range(n):
+        t = types[i]
+        if t == 'time-based':
+            beh.append({'type': t, 'step_size': rng.choice([1, 1, 2]), 'default_output': [None, ['po']]})
+        else:
+            ss = {str(tt): tt + rng.choice([1, 1, 2]) for tt in range(until)} if (i < np_ or rng.random() < 0.5) else {}
+            attrs = ['eo'] if t == 'event-based' else ['po', 'eo']
+            beh.append({'type': t, 'self_steps': ss, 'default_output': [None, attrs]})
+    init = [[i, 0] for i in range(n) if types[i] == 'event-based' and rng.random() < 0.7]
+    return dict(n=n, types=types, grp=grp, edges=edges, until=until, beh=beh, init=init, maxloop=100)
+
+
 def gen_parallel_case(rng: random.Random, clean=True):
     """one ordered pair of simulators connected several times with different delays (the larger one first or last), on
     different slots, dense data on every connection; optionally a third simulator up- or downstream"""
